@@ -15,7 +15,9 @@ CLAIMS = {
  "C17": ("Decides the root-computation clause: for every set of k<=3 directories (each up to 4 bytes quick / 7 bytes thorough, all 256 byte values, "
          "constrained only to what filepath.Dir(filepath.Abs(f)) can return) the root computed by LoadSources' commonPrefix is non-empty and a "
          "component-wise ancestor of every directory, and LoadSources on an empty list does not crash. Every path of the real SSA is explored and "
-         "every assertion is an unsat query. packages.Load, file-system errors and per-file package selection are NOT decided (I/O and the Go toolchain).",
+         "every assertion is an unsat query. The per-file package matching and error reporting of LoadSources are decided on a catalogue of layouts (two files of one package, a sibling package whose directory name extends the first, a sub-package, "
+         "a non-Go file, a missing file; 1..3(4) listed files in any order with repetitions) against an environment model of os.Stat/packages.Load that is validated on every run by executing the real LoadSources on the same layout in a temporary module (differential twin). "
+         "NOT decided: packages with type errors, the Go toolchain itself.",
          "DESIGN.md section 4 (C17)", ""),
  "C19": ("Decides the whole statement within the bounds: for every list of n<=3 (quick) / n<=4 (thorough) declarations whose IDs are any mix of 0- and 1-byte "
          "strings or all 2-byte strings (all byte values), 1-byte contents, symbolic priorities, equal IDs carrying equal content, "
@@ -55,6 +57,11 @@ CLAIMS = {
          "_SELECT KEY / UNIQUE directives naming unknown columns through sql.NewTable and sqlcrud.generateTable. Sweeps: typescript, dart (incl. Generate), SQL validators, gounions, randdata on every analysis.Type skeleton "
          "of depth<=1 (quick) / 2 (thorough) over the nine node kinds. NOT decided: the full statement over all well-typed packages (createType on arbitrary go/types graphs, unbounded recursion, packages.Load).",
          "DESIGN.md section 4 (C18)", ""),
+ "C12": ("Decides a bounded kernel of the statement on Analysis.handleType/createType/handleStructFields/NewTime with the real go/types objects: root struct with 1..1(2) fields whose types have depth<=1 over basic kinds, the root itself (self recursion), a second struct "
+         "referring back into the world (mutual recursion), an enum, a union, type N []S, time.Time, a user-defined time type whose name has a symbolic part (date detection decided by the solver), a named int64, slices, arrays (length 0..2), maps, pointers. Asserted: no runtime error, "
+         "termination (step bound = unwinding assertion), every reachable type registered and classified with the kind/length/key/element/fields/tags go/types reports, every node converting back to an identical Go type (time and date predefined, also inside composites). "
+         "Mostly structural enumeration executed by the engine; the solver decides the name-dependent date classification. NOT decided: arbitrary programs, source order of declarations, aliases, generics.",
+         "DESIGN.md section 6b (C12)", ""),
  "C06": ("Bug hunting only for the headline (Dart semantics are not encoded). Decided text clauses: fromJson reads and toJson writes exactly the Go JSON keys in field order with one constructor argument per exported field (symbolic names/tags); "
          "a class implements exactly its exported unions; the enum value table lists exactly the exported constants parallel to the enum names, iota enums convert by position only when the listed values are their positions (real setIsIota), "
          "enum names are distinct identifiers (symbolic constant names with underscores); through dart.Generate on every named type skeleton of depth<=2: no file imports itself, every imported file exists, JSON helpers are defined once per file and "
@@ -113,7 +120,6 @@ CLAIMS = {
 }
 
 NA = {
- "C12": "memoised traversal of a cyclic go/types pointer graph over all programs: no scalar domain for a solver; symbolic pointers and go/types' lazy resolution are out of reach of a hand-written encoder (DESIGN.md section 6)",
  "C13": "input is Go source text walked through go/ast with types.Eval per path expression: would need go/parser and the type checker under the solver (DESIGN.md section 6)",
 }
 PENDING = "no check registered yet: harnesses for this property are not built/validated at this commit (build order: DESIGN.md section 9)"
